@@ -138,7 +138,10 @@ class PyModel:
         if isinstance(res, tuple):
             if res[0] == "record":
                 fields = self.env.record_fields(res)
-                attrs = [a for k, a in vars(v).items() if not k.startswith("__")]
+                if isinstance(v, np.void):          # element of a structured array: fields by position
+                    attrs = [v[nm] for nm in v.dtype.names]
+                else:
+                    attrs = [a for k, a in vars(v).items() if not k.startswith("__")]
                 if len(attrs) != len(fields):
                     raise HarnessTrouble("record %s: %d attributes for %d fields" % (res[1].name, len(attrs), len(fields)))
                 return {n: self.neutral(ft, a) for (n, ft), a in zip(fields, attrs)}
